@@ -347,20 +347,30 @@ func commentDenseFileImports(g *gen.G, needImports bool) string {
 		sb.WriteString(cm("line") + "\n")
 	}
 	// the package clause may carry a comment of its own (an import comment)
-	switch r.Intn(4) {
+	switch r.Intn(6) {
 	case 0:
 		sb.WriteString("package p " + cm("line") + "\n\n")
 	case 1:
 		sb.WriteString("package p // import \"example.com/p\"\n\n")
+	case 2:
+		// more than one comment behind the package clause, on its line
+		sb.WriteString("package p " + cm("block") + " // import \"example.com/p\"\n\n")
+	case 3:
+		// an import comment on the line, a note right below it
+		sb.WriteString("package p // import \"example.com/p\"\n" + cm("line") + "\n\n")
 	default:
 		sb.WriteString("package p\n\n")
 	}
 	hasImports := false
 	layout := r.Intn(7)
 	if needImports {
-		layout = []int{0, 2, 3, 4, 4, 7, 7, 8, 8}[r.Intn(9)]
+		layout = []int{0, 2, 3, 4, 4, 7, 7, 8, 8, 9, 9}[r.Intn(11)]
 	}
 	switch layout {
+	case 9:
+		// a single import: when a patch removes it, the first declaration of the file goes
+		sb.WriteString("import \"os\"\n\n")
+		hasImports = true
 	case 7:
 		// single-spec import declarations, the later ones documented (a cgo preamble is such a doc comment)
 		sb.WriteString("import \"os\"\n\n// #include <stdio.h>\nimport \"C\"\n\n" + cm("line") + "\nimport \"fmt\"\n\n")
